@@ -57,6 +57,9 @@ _CVAL: Any = None
 _CAPTURE: dict[tuple[str, str], str] = {}
 
 
+_UNREACHED: list[tuple[str, str]] = []
+
+
 def capture_family(tier: str):
     """Defines the class family, triggers code generation, returns [(GenClass, {accessor: (text, closure names)})]."""
     import pyoak.codegen as cg
@@ -85,8 +88,12 @@ def capture_family(tier: str):
     out = []
     for h in fam:
         for gc in h:
-            inst = classgen.instance(gc, 0)
-            list(inst.get_child_nodes()); list(inst.get_child_nodes_with_field()); list(inst.iter_child_fields()); list(inst.get_properties())
+            try:
+                inst = classgen.instance(gc, 0)
+                list(inst.get_child_nodes()); list(inst.get_child_nodes_with_field()); list(inst.iter_child_fields()); list(inst.get_properties())
+            except Exception as ex:      # the class cannot be instantiated / its accessors fail on the current tree: nothing to verify, and not a verdict
+                _UNREACHED.append((gc.cls.__qualname__, f"{type(ex).__name__}: {ex!s:.160}"))
+                continue
             funcs = {}
             for acc in ACCESSORS:
                 txt = _CAPTURE.get((gc.cls.__qualname__, acc))
@@ -253,6 +260,7 @@ def _verify_idx(args):
 def run_custom(tier: str) -> list[dict]:
     import multiprocessing as mp
     global _FAM
+    del _UNREACHED[:]
     _FAM = capture_family(tier)
     timeout_ms = 20000 if tier == "quick" else 120000
     ctx = mp.get_context("fork")
@@ -261,4 +269,8 @@ def run_custom(tier: str) -> list[dict]:
     out: list[dict] = []
     for p in parts:
         out.extend(p)
+    for name, why in _UNREACHED:
+        out.append({"kind": "fn", "area": "contracts.codegen_generated", "key": f"generated:{name}", "fn": f"generated:{name}", "status": "out-of-reach",
+                    "error": f"class family member could not be instantiated on this tree: {why}", "paths": 0, "infeasible_paths": 0, "src_sha": "", "fn_hash": "",
+                    "canary": "", "seconds": 0, "obligations": [], "sample_smt2": "", "props": ["C12"], "note": ""})
     return out
